@@ -16,7 +16,7 @@ def run(tier, seed):
         if tier == "quick" and (r["id"] + seed) % 3 != 0 and r["obj"]["graph"]["n"] > 3:
             continue                      # quick: every small object, a seeded third of the larger ones
         n, R = r["obj"]["graph"]["n"], r["R"]
-        base = {"obj": r["obj"], "id": r["id"], "R": R, "rootsopt": r["rootsopt"], "roots": r["roots"],
+        base = {"obj": r["obj"], "id": r["id"], "flip": GC.flip_of(seed, r["id"]), "R": R, "rootsopt": r["rootsopt"], "roots": r["roots"],
                 "allow_empty": r["allow_empty"], "form": ["array", "list"][(seed + r["id"]) % 2]}
         pats = list(range(R ** n))
         z3jobs += GC.split_patterns(dict(base, patterns=pats, expects=r["ok"]), 96)
